@@ -226,8 +226,10 @@ def coerceDefault (E : Ext) (t : IrTy) (lit : Lit) : CR Lit :=
 
 /-- the body of `_populate_field_defaults` for one field `f T = lit`: the stored default -/
 def populateDefault (E : Ext) (C : CExt) (us : List CUnion) (t : IrTy) (lit : Lit) : CR Lit :=
+  -- an alias of Void is Void too (refused like the literal `f Void`; for every field, defaulted or not)
+  if isVoidLit (unwrapAliases t) then invalid "Struct field cannot have a Void type"
   -- an alias of a nullable type is nullable too (refused like the literal `T?`)
-  if (unwrapAliases t).isNullableLit then invalid "Field cannot be a nullable type and have a default specified"
+  else if (unwrapAliases t).isNullableLit then invalid "Field cannot be a nullable type and have a default specified"
   -- only a primitive or a union (behind aliases) can carry a default: List / Map / struct are refused here
   else if !defaultable (unwrapAll t) then invalid "Field cannot have a default: only fields of a primitive or union type can"
   else match coerceDefault E t lit with
